@@ -22,8 +22,9 @@ def make_callable(f: dict):
     args = [orig.get(p, p) for p in f["params"]]
     sig = ", ".join(args)
     kw = ", ".join(f"{a}={a}" for a in args)
+    ret = "None" if f.get("returns_none") else "r"
     src = (f"def {f['name']}({sig}):\n    from rtc.progs import _body\n"
-           f"    return _body({f['name']!r}, {tuple(f['outputs'])!r}, None, dict({kw}))\n")
+           f"    r = _body({f['name']!r}, {tuple(f['outputs'])!r}, None, dict({kw}))\n    return {ret}\n")
     ns: dict = {}
     exec(src, ns)  # noqa: S102
     fn = ns[f["name"]]
@@ -104,7 +105,9 @@ def refeval(desc: dict, output: str, kwargs: dict) -> tuple[Any, dict, list]:
                         raise NotComputable(p)
             t = tag(f, kw)
             calls.append(f["name"])
-            if len(f["outputs"]) == 1:
+            if f.get("returns_none"):
+                vals[f["outputs"][0]] = None
+            elif len(f["outputs"]) == 1:
                 vals[f["outputs"][0]] = t
             else:
                 for o in f["outputs"]:
@@ -177,6 +180,8 @@ def gen_dag(rng: random.Random, n_funcs: int = 3, allow_multi=True, allow_defaul
                 f.setdefault("bound", {})[p] = f"B_{p}_{q}"
             if allow_renames and rng.random() < 0.15:
                 f.setdefault("orig", {})[p] = f"{p}_in{q}"
+        if n_out == 1 and rng.random() < 0.12:
+            f["returns_none"] = True  # None is a value like any other
         funcs.append(f)
         avail += outs
     # a default must be consistent pipeline-wide: every function taking a defaulted root gets the same default
